@@ -25,11 +25,12 @@ import (
 )
 
 type Case struct {
-	Kind string `json:"kind"` // stream | govalue | packet
-	Ctx  []byte `json:"ctx,omitempty"`
-	Data []byte `json:"data,omitempty"`
-	DT   int    `json:"dt,omitempty"`
-	Name string `json:"name,omitempty"`
+	Kind  string     `json:"kind"` // stream | govalue | packet
+	Ctx   []byte     `json:"ctx,omitempty"`
+	Data  []byte     `json:"data,omitempty"`
+	DT    int        `json:"dt,omitempty"`
+	Name  string     `json:"name,omitempty"`
+	Login *LoginCase `json:"login,omitempty"`
 }
 
 var h *hlib.H
@@ -204,7 +205,11 @@ func main() {
 	h = hlib.Init("C10")
 	var rc Case
 	if h.ReplayCase(&rc) {
-		one(rc, true)
+		if rc.Login != nil {
+			runLoginCase(*rc.Login)
+		} else {
+			one(rc, true)
+		}
 		h.ReplayReport()
 	}
 	level := 0
@@ -407,6 +412,9 @@ func main() {
 	}
 	flush()
 	h.Section("packets", 1)
+	// (vii) the login conversation with the server's key parameters replaced
+	li := 0
+	loginLeg(&li)
 	for k, v := range outcomes {
 		for i := int64(0); i < 1; i++ {
 			h.Outcome(k)
